@@ -17,7 +17,7 @@ STUBS = ["call-exact: read likelihood of the target sample -> ln L_A(genotype) (
          "call: CallingMCMC -> recorder (the sampler is a function of its constructor/fit arguments and the seed; the check is that these do not depend on other samples)",
          "assemble: DenovoMCMC -> posterior with symbolic probabilities (as in C13)"]
 ASSUMES = ["self-composition: the same path condition, two runs differing only in the other samples' data; the target sample's outputs must be equal terms",
-           "pools: covered jointly with C06 (the pool's read matrix is the concatenation of its members' filtered pileups, solver-checked there)"]
+           "pools / samples sharing one alignment file: the C06 driver (symbolic alignments behind the pysam contract stub) -- every column's read matrix is the concatenation of its own members' filtered pileups"]
 BOUNDS = {"quick": "call-exact: ploidy 2, 2-3 alleles, 2 samples + alone + swapped order; call: 2 samples, masks as in C16; assemble: C13 scenarios with 2 samples, each with and without the second sample; pools: all assignments of 3 samples to <= 2 pools",
           "thorough": "adds ploidy 3 and 3-sample scenarios"}
 OUTSIDE = "physically merged BAM files and --sample-pool file parsing from disk; equality of MCMC output itself across runs is C08's seeding clause"
@@ -34,11 +34,18 @@ def configs(tier):
     for scen in (("dip2", "mixed") if tier == "quick" else ("dip2", "mixed", "tet2", "three")):
         out.append(dict(group="assemble", scenario=scen))
     out.append(dict(group="pools"))
+    # two samples (or the two members of a pool) that live in ONE alignment file: every column must be built from its own
+    # members' reads (shared driver with C06: symbolic alignments behind the pysam contract stub)
+    for layout in ("two", "pool"):
+        out.append(dict(group="encode", k=2, ns=1, small=True, layout=layout))
+    if tier != "quick":
+        for layout in ("two", "pool"):
+            out.append(dict(group="encode", k=3, ns=1, small=True, layout=layout))
     return out
 
 
 def weight(c):
-    return 3 if c["group"] == "assemble" else 1
+    return 10 if c["group"] == "encode" else 3 if c["group"] == "assemble" else 1
 
 
 def run_config(c, col):
@@ -52,6 +59,16 @@ def run_config(c, col):
     with prof:
         globals()["_run_" + c["group"]](c, col)
     col.functions |= set(prof.names())
+
+
+def _run_encode(c, col):
+    from checks import c06
+
+    E.cfg.concrete_floats = True
+    try:
+        c06._run_encode(c, col)
+    finally:
+        E.cfg.concrete_floats = False
 
 
 def _mods():
@@ -394,6 +411,10 @@ def replay(v):
     m = v.get("model") or {}
     if c["group"] == "exact":
         return _replay_exact(c, m)
+    if c["group"] == "encode":
+        from checks import c06
+
+        return c06._replay_encode(v)
     if c["group"] in ("call", "assemble", "pools"):
         return _replay_driver(c, m, v)
     return False, "kind?"
